@@ -1,0 +1,48 @@
+//go:build verif
+
+// Contracts for the deductive verifier in /verif (comment-only; compiled only with -tags verif).
+package keeper
+
+//@ family records key types.GetRecordKey value types.Record
+//@ family counter key global:types.IntraTxCounterKey value uint32 enc proto
+
+//@ define CTR = ite(has(counter), get(counter), 0)
+// the counter and the encoded record that went into an id (A-HASH: sha256 and the fixed-width suffix layout are injective)
+//@ define ctrOf(id) = uf("be32_inv", ufbytes("concat_suffix_fixed", ufbytes("sha256_pre", id)))
+//@ define encOf(id) = ufbytes("concat_prefix_fixed", ufbytes("sha256_pre", id))
+// every stored id was made with a counter value below the current one
+//@ define idsBelowCounter = forall i:Bytes :: has(records, i) ==> 0 <= ctrOf(i) && ctrOf(i) < CTR
+
+//@ func Keeper.AddRecord
+//@   property C19
+//@   returns id
+//@   requires idsBelowCounter
+//@   requires CTR < 4294967295
+//@   bound fewer than 2^32-1 records: the uint32 counter must not wrap
+//@   modifies records, counter
+//@   ensures stored:  records == set(old(records), id, record)
+//@   ensures fresh:   !old(has(records, id))
+//@   ensures counter: has(counter) && get(counter) == old(CTR) + 1
+//@   ensures id_of:   ctrOf(id) == old(CTR)
+//@   ensures keeps:   idsBelowCounter
+//@ end
+
+//@ func Keeper.GetRecord
+//@   property C19
+//@   returns record, found
+//@   ensures found: found == has(records, recordID)
+//@   ensures value: found ==> record == get(records, recordID)
+//@ end
+
+//@ func msgServer.CreateRecord
+//@   property C19
+//@   returns resp, err
+//@   requires idsBelowCounter
+//@   requires CTR < 4294967295
+//@   modifies records, counter
+//@   ensures fresh:    err == nil ==> !old(has(records, unhex(resp.Id)))
+//@   ensures stored:   err == nil ==> records == set(old(records), unhex(resp.Id), get(records, unhex(resp.Id)))
+//@   ensures readback: err == nil ==> get(records, unhex(resp.Id)).Contents == msg.Contents && get(records, unhex(resp.Id)).Creator == msg.Creator
+//@                                 && get(records, unhex(resp.Id)).TxHash == ufstr("hex_upper", ufbytes("sha256", txbytes))
+//@   ensures keeps:    err == nil ==> idsBelowCounter
+//@ end
